@@ -3,9 +3,11 @@ package props
 import (
 	"encoding/json"
 	"fmt"
+	"math"
 	"math/rand"
 	"os"
 	"path/filepath"
+	"strconv"
 	"strings"
 	"time"
 
@@ -23,6 +25,20 @@ type c05Case struct {
 type c05Result struct {
 	Central pipeResult `json:"central"`
 	Parted  pipeResult `json:"parted"`
+}
+
+// c05WireCase: see c05_wire_worker.go. Scales: one client-side merge round per entry, every message re-issued with
+// samples, counts and sums multiplied by it.
+type c05WireCase struct {
+	Pipe   pipeCase `json:"pipe"`
+	Scales []int    `json:"scales"`
+}
+
+type c05WireResult struct {
+	CSV      string   `json:"csv"`
+	Messages int      `json:"messages"`
+	Samples  []string `json:"samples,omitempty"`
+	Err      string   `json:"err,omitempty"`
 }
 
 type c05Meta struct {
@@ -228,8 +244,126 @@ func c05(r *vlib.Run) int {
 		c05Check(r, i, metas[i], &res, cases[i].(c05Case))
 	}
 	os.RemoveAll(scratch)
+	c05Wire(r)
 	c05E2E(r)
 	return n / 2
+}
+
+// c05Wire: partial results of magnitudes no generated file reaches (counts of millions and billions of lines, sums
+// beyond 1e21, tiny fractions): see c05_wire_worker.go. The result of merging the scaled partials must be the result
+// of the small table with counts and sums multiplied by the total scale, and min/max/avg unchanged.
+func c05Wire(r *vlib.Run) {
+	rng := r.Rng("wire")
+	n := r.N(60, 600)
+	scratch := r.Dir("c05wire")
+	scalesPool := [][]int{{1}, {999999}, {1000000}, {1050000}, {210000, 1}, {333334, 333333, 333333}, {123456789}, {1000000000, 7}, {2, 3}, {99999, 900001}, {16777217}, {4000000000000}}
+	var cases []interface{}
+	var typed []c05WireCase
+	for i := 0; i < n; i++ {
+		groups := 1 + rng.Intn(4)
+		var lines []string
+		for g := 0; g < groups; g++ {
+			for k := 0; k < 1+rng.Intn(5); k++ {
+				v := []string{"2", "-3", "0.5", "1000000", "1e3", "0", "7.25", "-0.000001", "123456.789"}[rng.Intn(9)]
+				lines = append(lines, fmt.Sprintf("g=grp%d|v=%s|w=1", g, v))
+			}
+		}
+		out := filepath.Join(scratch, fmt.Sprintf("w%d.csv", i))
+		q := "select g,count($line),sum(v),min(v),max(v),avg(v),sum(w) group by g logformat generickv outfile " + out
+		if rng.Intn(3) == 0 {
+			q = "select g,count(v),sum(w),avg(w) group by g logformat generickv outfile " + out
+		}
+		pc := pipeCase{Query: q, Outfile: out, Servers: []pipeServer{{Host: "wire", Files: []pipeFile{{Lines: lines}}}}}
+		base := c05WireCase{Pipe: pc, Scales: []int{1}}
+		sc := c05WireCase{Pipe: pc, Scales: scalesPool[rng.Intn(len(scalesPool))]}
+		sc.Pipe.Outfile = out + ".scaled.csv"
+		sc.Pipe.Query = strings.Replace(q, out, sc.Pipe.Outfile, 1)
+		cases = append(cases, base, sc)
+		typed = append(typed, base, sc)
+	}
+	results, crashes := r.RunBatchesOpts("c05wire", cases, vlib.BatchOpts{Size: 40, Workers: 8})
+	for _, cr := range crashes {
+		r.Violation("pipeline-crash", map[string]interface{}{"tier": "wire", "case": typed[cr.Any()], "stderr": vlib.Trunc(string(cr.Result.Stderr), 3000)})
+	}
+	parse := func(raw json.RawMessage) (map[string][]string, []string, *c05WireResult) {
+		if raw == nil {
+			return nil, nil, nil
+		}
+		var res c05WireResult
+		json.Unmarshal(raw, &res)
+		header, rows := mq.ParseCSV(res.CSV)
+		m := map[string][]string{}
+		for _, row := range rows {
+			if len(row) > 0 {
+				m[row[0]] = row
+			}
+		}
+		return m, header, &res
+	}
+	for i := 0; i+1 < len(results); i += 2 {
+		baseRows, header, bres := parse(results[i])
+		scRows, _, sres := parse(results[i+1])
+		if bres == nil || sres == nil {
+			continue
+		}
+		total := 0.0
+		for _, k := range typed[i+1].Scales {
+			total += float64(k)
+		}
+		r.Eval(fmt.Sprintf("wire|%v|%x", typed[i+1].Scales, hashStrings(typed[i].Pipe.Servers[0].Files[0].Lines)))
+		r.Count("wire_cases", 1)
+		r.Count("wire_messages_reissued_with_scaled_values", sres.Messages)
+		if total >= 1e6 {
+			r.Count("wire_cases_with_counts_of_a_million_lines_and_more", 1)
+		}
+		if i < 2 {
+			r.Sample(map[string]interface{}{"tier": "wire", "scales": typed[i+1].Scales, "wire_messages": sres.Samples, "result": sres.CSV})
+		}
+		fail := func(why string) {
+			r.Violation("partials-of-large-magnitude-merged-wrongly", map[string]interface{}{"why": why, "query": typed[i].Pipe.Query, "lines": typed[i].Pipe.Servers[0].Files[0].Lines,
+				"scales": typed[i+1].Scales, "result_unscaled": bres.CSV, "result_scaled": sres.CSV, "wire_messages": sres.Samples, "error": sres.Err})
+		}
+		if bres.Err != "" || sres.Err != "" || len(baseRows) == 0 {
+			if sres.Err != "" && bres.Err == "" {
+				fail("scaled run failed: " + sres.Err)
+			} else {
+				r.Inconclusive("wire-base-run")
+			}
+			continue
+		}
+		if len(scRows) != len(baseRows) {
+			fail(fmt.Sprintf("%d groups, want %d", len(scRows), len(baseRows)))
+			continue
+		}
+		for g, brow := range baseRows {
+			srow, ok := scRows[g]
+			if !ok || len(srow) != len(brow) {
+				fail("group " + g + " missing or of another width")
+				break
+			}
+			bad := ""
+			for c := 1; c < len(brow) && c < len(header); c++ {
+				bv, e1 := strconv.ParseFloat(brow[c], 64)
+				sv, e2 := strconv.ParseFloat(srow[c], 64)
+				if e1 != nil || e2 != nil {
+					bad = fmt.Sprintf("column %s of group %s is not a number: %q / %q", header[c], g, brow[c], srow[c])
+					break
+				}
+				want := bv
+				if strings.HasPrefix(header[c], "count(") || strings.HasPrefix(header[c], "sum(") {
+					want = bv * total
+				}
+				if math.Abs(sv-want) > 1e-9*math.Max(1, math.Abs(want)) {
+					bad = fmt.Sprintf("column %s of group %s is %s, want %v (unscaled %s x %v)", header[c], g, srow[c], want, brow[c], total)
+					break
+				}
+			}
+			if bad != "" {
+				fail(bad)
+				break
+			}
+		}
+	}
 }
 
 func c05Check(r *vlib.Run, i int, m *c05Meta, res *c05Result, c c05Case) {
